@@ -80,7 +80,7 @@ def doLowLevelMove(port_name, rate1, steps1, accel1, rate2, steps2,
         if ((rate1 == 0 and accel1 == 0) or steps1 == 0) and\
                 ((rate2 == 0 and accel2 == 0) or steps2 == 0):
             return # No steps to take on either axis
-        if clear:
+        if clear is not None:
             str_output = 'LM,{0},{1},{2},{3},{4},{5},{6}\r'.format(rate1,\
                                     steps1, accel1, rate2, steps2, accel2, clear)
         else:
@@ -119,7 +119,7 @@ def doAbsMove(port_name, rate, position1=None, position2=None, verbose=True):
         ebb_serial.min_version(port_name, "2.7.0") if necessary.
     '''
     if port_name is not None:
-        if position1 and position2:
+        if (position1 is not None) and (position2 is not None):
             str_output = 'HM,{0},{1},{2}\r'.format(rate, position1, position2)
         else:
             str_output = 'HM,{0}\r'.format(rate)
@@ -274,7 +274,7 @@ def sendPenDown(port_name, pen_delay, pin=None, verbose=True):
     Optionally, specify which pin to use
     """
     if port_name is not None:
-        if pin:
+        if pin is not None:
             str_output = 'SP,0,{},{}\r'.format(pen_delay, pin)
         else:
             str_output = 'SP,0,{}\r'.format(pen_delay)
@@ -287,7 +287,7 @@ def sendPenUp(port_name, pen_delay, pin=None, verbose=True):
     Optionally, specify which pin to use
     """
     if port_name is not None:
-        if pin:
+        if pin is not None:
             str_output = 'SP,1,{},{}\r'.format(pen_delay, pin)
         else:
             str_output = 'SP,1,{0}\r'.format(pen_delay)
